@@ -190,6 +190,16 @@ def _len_lower_bound(body, bb, coll):
     return best
 
 
+def _len_at_least(body, bb, coll, n_op):
+    """A dominating comparison states len(coll) >= n for the (variable) operand n."""
+    for (e, op, a, b) in dominating_cmps(body, bb):
+        for (x, y, o) in ((a, b, op), (b, a, {"Lt": "Gt", "Le": "Ge", "Gt": "Lt", "Ge": "Le", "Eq": "Eq", "Ne": "Ne"}[op])):
+            lx = _is_len_of(body, x)
+            if lx is not None and same_root(body, lx, coll) and same_root(body, y, n_op) and o in ("Ge", "Gt", "Eq"):
+                return True
+    return False
+
+
 def _range_parts(body, op):
     """For an operand that is a Range/RangeFrom/RangeTo aggregate: dict field->operand."""
     p = op_place(op)
@@ -273,6 +283,29 @@ def _resolve_place(body, place, depth=0):
             l, proj = q["l"], list(q["p"]) + proj
         else:
             return None
+    # a reference kept in a closure's captures / a tuple / a struct: (*(env.0)) with env = {closure: [&mut x]}  ->  x
+    for _ in range(6):
+        if not ("*" in proj and proj and isinstance(proj[0], dict) and "f" in proj[0]):
+            break
+        ds = [x for x in body.defs.get(l, []) if x.kind != "assign" or not x.node["dst"]["p"]]
+        d = ds[0] if len(ds) == 1 else None
+        if d is None or d.kind != "assign":
+            return None
+        rv = d.node["rv"]
+        if rv["k"] == "use" and op_place(rv["op"]) is not None:
+            q = op_place(rv["op"])
+            l, proj = q["l"], list(q["p"]) + proj
+            continue
+        if rv["k"] == "ref":
+            l, proj = rv["place"]["l"], list(rv["place"]["p"]) + proj
+            continue
+        if rv["k"] == "agg" and rv.get("agg") in ("closure", "tuple") and str(proj[0]["f"]).isdigit() and int(proj[0]["f"]) < len(rv["ops"]):
+            q = op_place(rv["ops"][int(proj[0]["f"])])
+            if q is None:
+                return None
+            sub = _resolve_place(body, {"l": q["l"], "p": list(q["p"]) + proj[1:]}, depth + 1) if depth < 4 else None
+            return sub
+        return None
     if "*" in proj:
         return None
     return l, tuple(e["f"] if isinstance(e, dict) and "f" in e else str(e) for e in proj)
@@ -472,7 +505,7 @@ def contract(fx, body, bb, t, kind, descr):
                 return ("G8-premise", "reduced-link map indexed by the name of one of the layout's own steps: every step name has an entry - the "
                         "threshold stage inserts one entry per layout step, the sub-layout and reduce stages keep every key or return Err "
                         "(C02/D5 checks the producer side)")
-        if "BTreeMap<models::helpers::VirtualTargetPath, std::collections::HashMap<crypto::HashAlgorithm, crypto::HashValue>>" in tys[0] \
+        if re.search(r"BTreeMap<models::helpers::VirtualTargetPath, &?std::collections::HashMap<crypto::HashAlgorithm, crypto::HashValue>>", tys[0]) \
                 and tys[1].lstrip("&") == "models::helpers::VirtualTargetPath":
             kl = body.trace(t["args"][1])
             if kl and all(l.kind == "param" and l.path == (("elem",),) and "BTreeSet<models::helpers::VirtualTargetPath>" in body.local_ty(l.data) for l in kl):
@@ -585,6 +618,20 @@ def _discharge(fx, body, bb, t, kind, descr, cg=None, fkey=None):
         lb = _len_lower_bound(body, bb, t["args"][0])
         if c is not None and lb >= c and "str" not in n:
             return ("G2", "split_at(%d) under a dominating length guard (len >= %d)" % (c, lb))
+        if "str" not in n and _len_at_least(body, bb, t["args"][0], t["args"][1]):
+            return ("G2", "split_at(n) under a dominating guard len >= n")
+        if "str" not in n:
+            # n = the index Iterator::position found in an iteration over the same slice: below its length
+            pl = body.trace(t["args"][1], (), lambda tt: callee_name(tt) == "std::iter::Iterator::position")
+            if pl and all(l.kind == "call" and callee_name(l.data[1]) == "std::iter::Iterator::position" and l.path == (("v", "Some"), ("f", "0")) for l in pl):
+                ok_src = True
+                for l in pl:
+                    il = body.trace(l.data[1]["args"][0], (), lambda tt: callee_name(tt) in ("core::slice::iter",))
+                    ok_src = ok_src and bool(il) and all(x.kind == "call" and callee_name(x.data[1]) == "core::slice::iter" and not x.path and
+                                                         same_root(body, x.data[1]["args"][0], t["args"][0]) and
+                                                         not any(v in ("Iterator::skip", "Iterator::rev", "Iterator::chain", "Iterator::step_by") for v in x.via) for x in il)
+                if ok_src:
+                    return ("G7-position", "split_at(i) with i = Iterator::position over the same slice's iter(): i < len (std contract)")
         return None
     # ---------------- Index impls
     if kind == "call" and n in ("std::ops::Index::index", "std::ops::IndexMut::index_mut"):
@@ -633,6 +680,9 @@ def _discharge(fx, body, bb, t, kind, descr, cg=None, fkey=None):
                                 return ("G2", "index len-1 under a non-empty guard")
             return None
         rp = _range_parts(body, t["args"][1])
+        if rp and rp["adt"].endswith("RangeTo") and not rp["adt"].endswith("RangeToInclusive") and \
+                cont.lstrip("&").replace("mut ", "") not in ("str", "std::string::String") and _len_at_least(body, bb, coll, rp["fields"]["end"]):
+            return ("G2", "slice [..n] under a dominating guard len >= n")
         if rp and rp["adt"].endswith("RangeFrom"):
             c = const_int(body, rp["fields"]["start"])
             lb = _len_lower_bound(body, bb, coll)
